@@ -107,3 +107,21 @@ func (t *VerifTripper) ResolutionCache() map[string][]ResolutionResult {
 	})
 	return out
 }
+
+// VerifNewDNSCacheWith is VerifNewDNSCache with the caller's allow / deny lists (a harness with a loopback listener lets
+// exactly that address through, so that DialContext can succeed on one address of an entry and be refused on another).
+func VerifNewDNSCacheWith(size int, d time.Duration, allow, deny []string, r VerifResolver) *VerifDNS {
+	c := NewDNSCache(size, d, allow, deny)
+	c.resolver = verifResolver{r}
+	return &VerifDNS{c}
+}
+
+// DialAddr dials through the cache and reports the remote address of the connection it got.
+func (v *VerifDNS) DialAddr(address string) (string, error) {
+	conn, err := v.C.DialContext(context.Background(), "tcp", address)
+	if err != nil {
+		return "", err
+	}
+	defer conn.Close() // nolint: errcheck
+	return conn.RemoteAddr().String(), nil
+}
